@@ -912,6 +912,44 @@ class RowItem(LRef):
         return "RowItem(...)"
 
 
+class YieldedRef(LRef):
+    """A list object after a generator run to exhaustion has YIELDED it (interp._yield): CPython hands the consumer
+    the very list object, so a later in-place change by the generator would show in the row already yielded.  The
+    model yields the content by value and keeps the list readable -- it may be read, sliced, concatenated and yielded
+    again (SolidCanvas.content yields one `line` for every row) -- but any in-place change afterwards is rejected
+    (every list-mutation model assigns `.seq`), which is exactly the condition under which by-value and by-reference
+    agree.  Cross-check against CPython: spec/xcheck_cases.py x_generator_same_list."""
+
+    @property
+    def seq(self):
+        return self._content
+
+    @seq.setter
+    def seq(self, new):
+        raise Unsupported("a list is changed in place after it was yielded (the yielded row would change with it: aliasing is not modelled)")
+
+    def snapshot(self):
+        return LRef(self._content)
+
+    def __repr__(self):
+        return f"YieldedRef({self._content!r})"
+
+
+def yielded_value(v):
+    """The value a generator run to exhaustion yields for `v`: a plain list object is yielded by value and frozen
+    (YieldedRef); rows of nested lists as in `row_value`."""
+    if type(v) is LRef:
+        content = v.__dict__.pop("seq")
+        v.__class__ = YieldedRef
+        v._content = content
+        return content
+    if isinstance(v, YieldedRef):
+        return v._content
+    if isinstance(v, LRef):
+        return row_value(v)
+    return v
+
+
 class DRef(Sym):
     """A mutable dict with concrete keys (reference semantics)."""
 
@@ -1020,6 +1058,86 @@ class ModelObj(Sym):
 
     def __eq__(self, o):
         return self is o
+
+
+class GuardedSeq(ModelObj):
+    """The iteration of a collection whose MEMBERSHIP is symbolic over a finite, concrete universe (a set of enum members
+    or small ints with one truth value per candidate): `items` = [(guard, value)], the collection's elements are exactly
+    the values whose guard holds (order unspecified, as for a CPython set).  A generator expression over it
+    (`interp._comp`) yields a GuardedSeq of the element expression's values under the conjoined guards (`if` clauses
+    strengthen the guard); consumers are order-independent folds only:
+        all(g) = AND(guard -> truth(value)),  any(g) = OR(guard and truth(value)),  len / truth.
+    The element expression is evaluated for every candidate, members or not: it must be pure and total (an exception
+    while evaluating it is Unsupported).  A `for` statement over it is Unsupported.
+    Cross-check against CPython: `xcheck_guarded` below (every subset of a small universe)."""
+
+    def __init__(self, items):
+        self.items = list(items)
+
+    def snapshot(self):
+        return GuardedSeq(self.items)
+
+    def py_iter(self, ip, st):
+        return self
+
+    def py_truth(self, st):
+        from .values import either
+
+        return either(False, *[g for g, _v in self.items])
+
+    def py_len(self, st):
+        from .values import ite
+
+        n = 0
+        for g, _v in self.items:
+            n = n + (ite(g, 1, 0) if not isinstance(g, bool) else int(g))
+        return n
+
+    @staticmethod
+    def truth_formula(v):
+        """bool(v) as a formula (never forks)."""
+        from .values import SBool, SInt, Sym, Unsupported
+
+        if isinstance(v, (bool, SBool)):
+            return v
+        if isinstance(v, SInt):
+            return v != 0
+        if isinstance(v, Sym):
+            raise Unsupported(f"truth of {type(v).__name__} as an element of a guarded sequence")
+        return bool(v)
+
+    def fold_all(self):
+        from .values import both, implies
+
+        return both(True, *[implies(g, self.truth_formula(v)) for g, v in self.items])
+
+    def fold_any(self):
+        from .values import both, either
+
+        return either(False, *[both(g, self.truth_formula(v)) for g, v in self.items])
+
+
+def xcheck_guarded(universe=(0, 1, 2, 5, 9)):
+    """CPython cross-check of GuardedSeq: for every subset S of a small universe and a few element expressions f,
+    all(f(x) for x in S), any(..), len(S), bool(S) computed by CPython equal the model's folds with the guards set to
+    `x in S`.  -> (label, ok, detail)"""
+    import itertools
+
+    fs = [lambda x: x & 1, lambda x: x > 1, lambda x: 0, lambda x: x]
+    bad = []
+    cnt = 0
+    for r in range(len(universe) + 1):
+        for sub in itertools.combinations(universe, r):
+            S = set(sub)
+            base = GuardedSeq([(x in S, x) for x in universe])
+            if bool(base.py_truth(None)) != bool(S) or base.py_len(None) != len(S):
+                bad.append(("len/truth", sub))
+            for k, f in enumerate(fs):
+                g = GuardedSeq([(gd, f(v)) for gd, v in base.items])
+                cnt += 1
+                if bool(g.fold_all()) != all(f(x) for x in S) or bool(g.fold_any()) != any(f(x) for x in S):
+                    bad.append((k, sub))
+    return "guarded-sequence-folds-agree-with-cpython", not bad, f"{cnt} (subset, expression) pairs; mismatches: {bad[:3]}"
 
 
 class ObjDict(ModelObj):
